@@ -73,6 +73,37 @@ def step_bind(ctx, spec, driver, progs, consts, pb=2, max_exec=150, keep=None):
     return tab, len(acc), len(total)
 
 
+def site_orders(ctx, name, driver, progs, sites, max_exec=12):
+    """order table by CALL SITE: the real code is run with one record per atomic access, every record is symbolized to its innermost xenium
+       function and source line, and the memory order of the accesses of kind `kind` inside function `fn` (the rank-th distinct source line of
+       that kind in that function) becomes the order of spec label `label`.  sites: {label: (kind, fn substring, rank)}.
+       Weaker than the step-level binding (the structure of the code is not compared with the spec), used for the reclaimer kernels."""
+    xs = explore(ctx, 'sites_%s' % name, driver, progs, mode='dfs', pb=1, max_exec=max_exec, steps=True)
+    d = ctx.sub('so_' + name)
+    lab = os.path.join(d, 'labelled.ndjson')
+    label_steps(os.path.join(BUILD, driver), xs['trace'], lab)
+    seen = {}
+    for l in open(lab):
+        r = json.loads(l)
+        if r['e'] in ('ld', 'st', 'cas', 'xchg', 'faa', 'fas', 'for', 'fence') and r['t'] != 9 and r.get('fn'):
+            seen.setdefault((r['fn'], r['e']), {}).setdefault(r['ln'], set()).add(r['op'])
+    tab, missing = {}, []
+    for label, (kind, fnsub, rank) in sites.items():
+        lines = {}
+        for (fn, k), byln in seen.items():
+            if k == kind and fnsub in fn:
+                for ln, ords in byln.items():
+                    lines.setdefault(ln, set()).update(ords)
+        order = sorted(lines)
+        if rank < len(order):
+            tab[label] = set(lines[order[rank]])
+        else:
+            missing.append(label)
+    ctx.binding.append({'spec': name, 'orders_extracted_by_call_site': {k: sorted(v) for k, v in tab.items()}, 'sites_not_observed': missing})
+    log('  S %-28s call-site order extraction: %d labels, not observed: %s' % (name, len(tab), missing))
+    return tab, missing
+
+
 def ord_module(spec, tab):
     """<spec>_RA.tla: the order table extracted from the code (labels never observed keep the value of OrdCode)"""
     ex = []
@@ -226,9 +257,23 @@ def run(ctx):
     jobs.append(lambda: tlc_mc(ctx, 'ra_toggle_ramalhete_take_rlx', 'Ramalhete_RA', dict(rq_ra, Progs='<-ProgP1'), invariants=INV_RW, view='mcview', constraints=['MsgBound5'], workers=4,
                                expect='violation', extra_files={'Ramalhete_RA.tla': toggle_module('Ramalhete', tabr, {'q_ldacq': 'rlx', 'q_xchg': 'rlx'})}, tmo=1500))
     # ---------------- kernels without step binding yet: hazard pointer publish / scan, michael-scott queue (orders as read from the code)
-    hp_ra = RM.hp_consts(Weak=True, MaxOps=1, NNodes=2, K=1, NG=1)
-    jobs.append(lambda: tlc_mc(ctx, 'ra_hazardpointer', 'HazardPointer', hp_ra, invariants=['Safe', 'NoDataRace'], view='mcview', constraints=['MsgBound5'], workers=6, tmo=1500))
+    build(['reclaim'])
+    HPF = 'basic_hp_thread_control_block::hazard_pointer::'
+    hp_sites = {'a_ld1': ('ld', 'hazard_pointer::guard_ptr::acquire', 0), 'a_ld2': ('ld', 'hazard_pointer::guard_ptr::acquire', 1), 'a_link': ('ld', HPF + 'get_link', 0),
+                'a_set': ('st', HPF + 'set_object', 0), 'a_fence': ('fence', HPF + 'set_object', 0), 'r_st': ('st', HPF + 'set_link', 0),
+                's_fence8': ('fence', 'hazard_pointer::thread_data::scan', 0), 's_fence9': ('fence', 'hazard_pointer::thread_data::scan', 1), 's_ld': ('ld', HPF + 'try_get_object', 0),
+                's_act': ('ld', 'thread_block_list::entry::is_active', 0), 'x_abandon': ('cas', 'thread_block_list::abandon_retired_nodes', 0),
+                'x_release': ('st', 'thread_block_list::entry::abandon', 0)}
+    tabh, missh = site_orders(ctx, 'HazardPointer', 'reclaim', ['hp3;;acq0:0,tch0,rst0,acq1:1;swp0:0,swp0:0,swp1:1'], hp_sites)
+    tabs_all['HazardPointer'] = tabh
+    bind['HazardPointer'] = (1, 1) if not missh else (0, 1)      # complete call-site table: a counterexample with it is reported
+    modh, _ = ord_module('HazardPointer', tabh)
+    hp_ra = RM.hp_consts(Weak=True, MaxOps=1, NNodes=2, K=1, NG=1, Ord='<-OrdX')
+    jobs.append(lambda: tlc_mc(ctx, 'ra_hazardpointer', 'HazardPointer_RA', hp_ra, invariants=['Safe', 'NoDataRace'], view='mcview', constraints=['MsgBound5'], workers=6, tmo=1500,
+                               extra_files={'HazardPointer_RA.tla': modh}))
     hpt = '---- MODULE HazardPointer_RA ----\nEXTENDS HazardPointer\nOrdX == [OrdCode EXCEPT !.a_fence = "none"]\n====\n'
+    jobs.append(lambda: tlc_mc(ctx, 'ra_toggle_hp_publishfence_acqrel', 'HazardPointer_RA', hp_ra, invariants=['Safe', 'NoDataRace'], view='mcview', constraints=['MsgBound5'],
+                               workers=4, expect='violation', extra_files={'HazardPointer_RA.tla': toggle_module('HazardPointer', tabh, {'a_fence': 'ar'})}, tmo=1500))
     jobs.append(lambda: tlc_mc(ctx, 'ra_toggle_hp_nopublishfence', 'HazardPointer_RA', dict(hp_ra, Ord='<-OrdX'), invariants=['Safe', 'NoDataRace'], view='mcview', constraints=['MsgBound5'],
                                workers=4, expect='violation', extra_files={'HazardPointer_RA.tla': hpt}, tmo=1500))
     ms_ra = QM.ms_consts(Weak=True, MaxPush=1, MaxPop=1)
@@ -237,17 +282,34 @@ def run(ctx):
     jobs.append(lambda: tlc_mc(ctx, 'ra_toggle_ms_link_rlx', 'MSQueue_RA', dict(ms_ra, Ord='<-OrdX'), invariants=['NoDataRace', 'Conservation', 'MemorySafe'], view='mcview', constraints=['MsgBound5'],
                                workers=4, expect='violation', extra_files={'MSQueue_RA.tla': mst}, tmo=1500))
     # ---------------- thread_block_list: plain next_entry / retired-node links published by release CASes (orders as written in the code)
-    tb_ra = RM.tb_consts(Weak=True, Lives=1, NNodes=2, MaxRetire=1)
+    TB = 'thread_block_list::'
+    tb_sites = {'a_ldh': ('ld', TB + 'adopt_or_create_entry', 0), 'a_ldst': ('ld', TB + 'entry::try_adopt', 0), 'a_cas': ('cas', TB + 'entry::try_adopt', 0),
+                'a_init': ('st', TB + 'adopt_or_create_entry', 0), 'a_ldh2': ('ld', TB + 'add_entry', 0), 'a_push': ('cas', TB + 'add_entry', 0),
+                'x_rel': ('st', TB + 'entry::abandon', 0), 'b_ld': ('ld', TB + 'abandon_retired_nodes', 0), 'b_cas': ('cas', TB + 'abandon_retired_nodes', 0),
+                'd_ld': ('ld', TB + 'adopt_abandoned_retired_nodes', 0)}
+    tabt, misst = site_orders(ctx, 'ThreadBlockList', 'reclaim', ['hp3;;acq0:0,tch0,rst0,acq1:1;swp0:0,swp0:0,swp1:1', 'hp3;;swp0:0,swp1:1;@0:acq0:0,swp0:0;swp1:1'], tb_sites)
+    tabs_all['ThreadBlockList'] = tabt; bind['ThreadBlockList'] = (1, 1) if not misst else (0, 1)
+    modt, _ = ord_module('ThreadBlockList', tabt)
+    tb_ra = RM.tb_consts(Weak=True, Lives=1, NNodes=2, MaxRetire=1, Ord='<-OrdX')
     INV_TBW = ['NoDataRace', 'Exclusive', 'NoNodeLost']
-    jobs.append(lambda: tlc_mc(ctx, 'ra_threadblocklist', 'ThreadBlockList', tb_ra, invariants=INV_TBW, view='mcview', constraints=['MsgBound5'], workers=4, tmo=1200))
+    jobs.append(lambda: tlc_mc(ctx, 'ra_threadblocklist', 'ThreadBlockList_RA', tb_ra, invariants=INV_TBW, view='mcview', constraints=['MsgBound5'], workers=4, tmo=1200,
+                               extra_files={'ThreadBlockList_RA.tla': modt}))
     for nm, chg in (('push_rlx', '!.a_push = "rlx"'), ('head_load_rlx', '!.a_ldh = "rlx"'), ('abandon_cas_rlx', '!.b_cas = "rlx"')):
         tbt = '---- MODULE ThreadBlockList_RA ----\nEXTENDS ThreadBlockList\nOrdX == [OrdCode EXCEPT %s]\n====\n' % chg
         jobs.append(lambda nm=nm, tbt=tbt: tlc_mc(ctx, 'ra_toggle_tbl_' + nm, 'ThreadBlockList_RA', dict(tb_ra, Ord='<-OrdX'), invariants=INV_TBW, view='mcview', constraints=['MsgBound5'],
                                                     workers=3, expect='violation', extra_files={'ThreadBlockList_RA.tla': tbt}, tmo=1200))
     # ---------------- dynamic hazard-pointer blocks: initialised slots and the plain block->next published by a release store of hp_block
-    hd_ra = RM.hd_consts(Weak=True, NBlocks=1, NCells=2, NObj=3, MaxScans=1)
+    DHP = 'dynamic_hp_thread_control_block::'
+    hd_sites = {'a_ld1': ('ld', 'hazard_pointer::guard_ptr::acquire', 0), 'a_ld2': ('ld', 'hazard_pointer::guard_ptr::acquire', 1), 'a_link': ('ld', HPF + 'get_link', 0),
+                'a_pub': ('st', HPF + 'set_object', 0), 'a_fence': ('fence', HPF + 'set_object', 0), 'b_init': ('st', HPF + 'set_link', 0),
+                'b_ldh': ('ld', DHP + 'allocate_new_hazard_pointer_block', 0), 'b_pub': ('st', DHP + 'allocate_new_hazard_pointer_block', 0), 's_ldb': ('ld', DHP + 'next_block', 0),
+                's_fence1': ('fence', 'hazard_pointer::thread_data::scan', 0), 's_fence2': ('fence', 'hazard_pointer::thread_data::scan', 1), 's_ld': ('ld', HPF + 'try_get_object', 0)}
+    tabd, missd = site_orders(ctx, 'HPDynamic', 'reclaim', ['hpd1;;acq0:0,acq1:1,acq2:2,tch0,tch2;swp0:0,swp1:1,swp2:2'], hd_sites)
+    tabs_all['HPDynamic'] = tabd; bind['HPDynamic'] = (1, 1) if not missd else (0, 1)
+    modd, _ = ord_module('HPDynamic', tabd)
+    hd_ra = RM.hd_consts(Weak=True, NBlocks=1, NCells=2, NObj=3, MaxScans=1, Ord='<-OrdX')
     INV_HDW = ['NoDataRace', 'Safe', 'SlotsIntact']
-    jobs.append(lambda: tlc_mc(ctx, 'ra_hpdynamic', 'HPDynamic', hd_ra, invariants=INV_HDW, constraints=['MsgBound5'], workers=4, tmo=1200))
+    jobs.append(lambda: tlc_mc(ctx, 'ra_hpdynamic', 'HPDynamic_RA', hd_ra, invariants=INV_HDW, constraints=['MsgBound5'], workers=4, tmo=1200, extra_files={'HPDynamic_RA.tla': modd}))
     for nm, chg in (('publish_rlx', '!.b_pub = "rlx"'), ('block_load_rlx', '!.s_ldb = "rlx"'), ('no_publish_fence', '!.a_fence = "none"')):
         hdt = '---- MODULE HPDynamic_RA ----\nEXTENDS HPDynamic\nOrdX == [OrdCode EXCEPT %s]\n====\n' % chg
         jobs.append(lambda nm=nm, hdt=hdt: tlc_mc(ctx, 'ra_toggle_hpdyn_' + nm, 'HPDynamic_RA', dict(hd_ra, Ord='<-OrdX'), invariants=INV_HDW, constraints=['MsgBound5'],
